@@ -103,7 +103,7 @@ fn make_variant(rng: &mut Rng, base: &Problem, st0: &DefaultSettings<f64>) -> Va
     };
     // configuration first (so that the data transformations below can depend on it if ever needed)
     let mut st = st0.clone();
-    if rng.bool(0.5) {
+    if rng.bool(0.5) && !base.b.iter().any(|v| *v >= 1e20) {
         st.presolve_enable = !st.presolve_enable;
         tags.push("presolve_toggled");
     }
@@ -238,6 +238,46 @@ fn base_problem(rng: &mut Rng, small: bool) -> (Problem, &'static str) {
             let mut pl = gen::planted_wellposed(rng, &o);
             if rng.bool(0.35) {
                 crate::c01::loosen(&mut pl, rng);
+            }
+            // a slice with extra rows  a_i.x <= b_i  in a nonnegative cone of their own appended to the list, some
+            // with an "infinite" right-hand side (vacuous; the presolver removes them and rewrites the cone list - it
+            // must do so consistently for every equivalent spelling of that list: cones split, merged, reordered) and
+            // some finite and loose (the planted pair stays strictly feasible: q absorbs their small multipliers).
+            // Presolve stays on in all variants of such a problem (with presolve off 1e20 is ordinary data, C09/C18)
+            if rng.bool(0.15) {
+                let (n, m) = (pl.problem.n(), pl.problem.m());
+                let k = rng.usize(2, 4);
+                let a = Dense::from_csc(&pl.problem.A);
+                let mut a2 = Dense::zeros(m + k, n);
+                for i in 0..m {
+                    for jx in 0..n {
+                        a2.set(i, jx, a.get(i, jx));
+                    }
+                }
+                let mut any = false;
+                for t in 0..k {
+                    let row: Vec<f64> = (0..n).map(|_| if rng.bool(0.6) { rng.range(-1.0, 1.0) } else { 0.0 }).collect();
+                    for jx in 0..n {
+                        a2.set(m + t, jx, row[jx]);
+                    }
+                    let ax: f64 = row.iter().zip(&pl.x0).map(|(u, v)| u * v).sum();
+                    if rng.bool(0.6) {
+                        pl.problem.b.push(*rng.choose(&[1e20, 1e25, 3e21]));
+                        any = true;
+                    } else {
+                        let (zi, si) = (rng.range(0.1, 1.0), rng.range(1.0, 10.0));
+                        pl.problem.b.push(ax + si);
+                        for jx in 0..n {
+                            pl.problem.q[jx] -= row[jx] * zi;
+                        }
+                    }
+                }
+                pl.problem.A = a2.to_csc();
+                pl.problem.cones.push(ConeT::NonnegativeConeT(k));
+                if any {
+                    return (pl.problem, "feasible_with_infinite_bounds");
+                }
+                return (pl.problem, "feasible");
             }
             (pl.problem, "feasible")
         }
@@ -572,7 +612,14 @@ fn w_threads(ctx: &mut Ctx) {
         let ndistinct = rng.usize(2, 6);
         let mut pool = vec![];
         for _ in 0..ndistinct {
-            let (p, _) = base_problem(&mut rng, false);
+            // (no "infinite" right-hand sides here: a sibling thread flips the module-level bound while these
+            // solvers are being built, on purpose, and which rows count as infinite would depend on the schedule)
+            let p = loop {
+                let (p, _) = base_problem(&mut rng, false);
+                if !p.b.iter().any(|v| *v >= 1e20) {
+                    break p;
+                }
+            };
             let mut st = gen::random_settings(&mut rng, true);
             st.time_limit = f64::INFINITY;
             st.presolve_enable = true;
